@@ -25,6 +25,10 @@ func eexec(intp *Interpreter) error {
 	if intp.Stack[len(intp.Stack)-1] != nil {
 		return &postScriptError{eTypecheck, "eexec"}
 	}
+	if len(intp.DictStack) >= maxDictStackDepth {
+		// eexec pushes systemdict, like `systemdict begin`
+		return &postScriptError{eDictstackoverflow, "eexec"}
+	}
 	intp.Stack = intp.Stack[:len(intp.Stack)-1]
 
 	// remember the dictionary stack, so that it can be restored afterwards
